@@ -953,6 +953,103 @@ def stream_pipeline(ctx, reqs, pending, only_idx=None):
                 ctx.fail(dict(case0, repeated=True), {'why': 'reading frames changed the image dataset'}, site='get_frame/mutates-image')
 
 
+# ---------------------------------------------------------------------------- colour type x palette flag x assembled reads
+def stream_assembled_colour(ctx, reqs, pending):
+    """Tiled images of every colour type (MONOCHROME2, PALETTE COLOR, RGB) read through get_total_pixel_matrix with the
+    palette flag None / True / False (colour management off): the assembled matrix has a colour axis exactly when the frames
+    have one, and equals the stored matrix mapped through the palette when the palette is applied (below / above the table ->
+    first / last entry) and the stored matrix otherwise.  (The output array is allocated from the transform's `color_output`
+    before any frame is read: a slip there only shows on this entry point.)"""
+    import highdicom as hd
+    from gen.pixeltransforms import add_transforms
+    from gen.sources import slide_image
+    for idx in range(ctx.n(18, 240)):
+        r = ctx.rng('asmcolour', idx)
+        nr = ctx.np_rng('asmcolour', idx)
+        ctype = [MONO, PALETTE, COLOR][idx % 3]
+        tr, tc = r.randint(1, 3), r.randint(2, 4)
+        R, C = r.randint(tr, 3 * tr), r.randint(tc, 3 * tc)
+        ds, tpm = slide_image(R, C, tr, tc, tiled_full=r.random() < 0.5, samples=3 if ctype == COLOR else 1, bits=8, rng=nr)
+        pal = None
+        if ctype == PALETTE:
+            k = r.choice([2, 5, 16, 200])
+            first = r.choice([0, 0, 3, 100])
+            pal = {'first': first, 'bits': r.choice([8, 16]), 'data': None}
+            pal['data'] = [[r.randint(0, 2 ** pal['bits'] - 1) for _ in range(3)] for _ in range(k)]
+            ds.PhotometricInterpretation = 'PALETTE COLOR'
+            add_transforms(ds, {'palette': pal})
+        st = call(hd.Image.from_dataset, ds)
+        if st[0] != 'ok':
+            ctx.note(f'assembled colour case {idx}: image not built: {st[2]}')
+            continue
+        im = st[1]
+        for pflag in (None, True, False):
+            if pflag is True and ctype != PALETTE:
+                continue
+            kw = dict(apply_real_world_transform=False, apply_modality_transform=False, apply_voi_transform=False,
+                      apply_presentation_lut=False, apply_palette_color_lut=pflag, apply_icc_profile=False, dtype=np.int64)
+            res = call(im.get_total_pixel_matrix, **kw)
+            case = {'stream': 'asmcolour', 'idx': idx, 'ctype': ctype, 'palette_flag': pflag}
+            ctx.case(nontrivial_key=('asmcolour', ctype, pflag, idx) if res[0] == 'ok' else None, assembled_colour=f'{ctype}/{pflag}',
+                     assembled_outcome=res[0] if res[0] == 'ok' else res[1])
+            want = np.asarray(tpm).astype(np.int64)
+            if ctype == PALETTE and pflag is not False:
+                d = np.asarray(pal['data'], dtype=np.int64)
+                want = d[np.clip(want - pal['first'], 0, len(d) - 1)]
+            if res[0] != 'ok':
+                ctx.fail(case, {'why': 'total pixel matrix refused', 'error': res[2]}, site='asmcolour/get_total_pixel_matrix')
+            elif np.asarray(res[1]).shape != want.shape or not np.array_equal(np.asarray(res[1]), want):
+                ctx.fail(case, {'why': 'assembled matrix differs from the stored matrix (through the palette where it applies)',
+                                'got_shape': list(np.asarray(res[1]).shape), 'want_shape': list(want.shape)},
+                         site='asmcolour/get_total_pixel_matrix')
+
+
+# ---------------------------------------------------------------------------- pixels exactly on the edges of a window
+def stream_window_edges(ctx, reqs, pending):
+    """Deterministic grid: LINEAR (width 1, 2, 5) and LINEAR_EXACT (width 1, 4) windows x no rescale / rescale with slope 1, 2, 1/2
+    x plain / inverted presentation x float64 / float32, with stored values exactly on the lower edge, on the upper edge and one
+    step to either side (PS3.3 C.11.2.1.2.1 / C.11.2.1.3.2: `<=` on the lower edge, `>` on the upper one).  Open / closed edge
+    slips only show on such pixels."""
+    grid = []
+    for fn, w in (('LINEAR', 1), ('LINEAR', 2), ('LINEAR', 5), ('LINEAR_EXACT', 1), ('LINEAR_EXACT', 4)):
+        for m, b in ((None, None), (1, 3), (2, -4), (Fraction(1, 2), 1)):
+            for shape in (None, 'INVERSE'):
+                grid.append((fn, w, m, b, shape))
+    for gi, (fn, w, m, b, shape) in enumerate(grid):
+        mm, bb = (Fraction(1), Fraction(0)) if m is None else (Fraction(m), Fraction(b))
+        # choose the centre so that both edges fall on integer stored values
+        lo_stored = 20
+        lo_edge = mm * lo_stored + bb                     # rescaled value of the lower edge
+        if fn == 'LINEAR':
+            c = lo_edge + Fraction(1, 2) + Fraction(w - 1, 2)
+            hi_edge = c - Fraction(1, 2) + Fraction(w - 1, 2)
+        else:
+            c = lo_edge + Fraction(w, 2)
+            hi_edge = c + Fraction(w, 2)
+        hi_stored = (hi_edge - bb) / mm
+        xs = sorted({lo_stored - 1, lo_stored, lo_stored + 1, int(hi_stored) - 1, int(hi_stored), int(hi_stored) + 1,
+                     int(hi_stored) + (0 if hi_stored.denominator == 1 else 1)})
+        T = {'window': [{'place': 'image', 'vals': [{'c': [fs(c)], 'w': [fs(Fraction(w))], 'fn': fn}]}]}
+        if m is not None:
+            T['rescale'] = [{'place': 'image', 'vals': [[fs(mm), fs(bb)]]}]
+        if shape:
+            T['pres_shape'] = shape
+        P = {'bits': 8, 'signed': False, 'bits_stored': 8, 'photometric': 'MONOCHROME2', 'frames': [[xs]], 'T': T}
+        st = call(build, P)
+        if st[0] != 'ok':
+            ctx.note('window-edge image could not be built: ' + st[2])
+            continue
+        im = st[1][0]
+        flags = {'rw': None, 'mod': None, 'voi': True, 'pal': None, 'icc': None, 'pres': True}
+        for dname in ('float64', 'float32'):
+            opts = {'dtype': dname}
+            res = call(im.get_frame, 1, dtype=np.dtype(dname), **flag_kwargs(flags))
+            case = {'stream': 'pipe', 'idx': -2 - gi, 'rep': 0, 'frame': 0, 'flags': flags, 'opts': opts, 'P': P}
+            check_call(ctx, case, P, 0, flags, opts, res, 'get_frame', hist=False)
+            ctx.case(nontrivial_key=('edges', gi, dname) if res[0] == 'ok' else None, window_edges=f'{fn}/w{w}/{"rescale" if m else "plain"}/{shape or "identity"}')
+    ctx.exhaustive.append('window edges: 5 windows x 4 rescales x 2 presentation shapes x 2 float types, pixels on and next to both edges')
+
+
 def settle(ctx, reqs, pending):
     answers = ctx.model(reqs)
     if answers is None:
@@ -986,6 +1083,8 @@ def run(ctx):
     stream_spellings(ctx, reqs, pending)
     stream_entrypoints(ctx, reqs, pending)
     stream_narrowing(ctx, reqs, pending)
+    stream_assembled_colour(ctx, reqs, pending)
+    stream_window_edges(ctx, reqs, pending)
     settle(ctx, reqs, pending)
 
 
@@ -1035,14 +1134,14 @@ def replay(ctx, case):
         keys = [k for k in ('rep', 'frame', 'repeated') if k in case]
         sub.failures = [f_ for f_ in sub.failures if all(f_['case'].get(k) == case.get(k) for k in keys)]
         return sub.failures[:3] or None
-    streams = {'lut': stream_lut, 'palette': stream_palette, 'selwin': stream_selectors, 'sellut': stream_selectors,
+    streams = {'asmcolour': stream_assembled_colour, 'lut': stream_lut, 'palette': stream_palette, 'selwin': stream_selectors, 'sellut': stream_selectors,
                'selrw': stream_selectors, 'place': stream_placement, 'obj': stream_objects, 'paths': stream_paths, 'dtype': stream_dtype,
                'spell': stream_spellings, 'entry': stream_entrypoints, 'narrow': stream_narrowing}
     fn = streams.get(stream)
     if fn is not None:
         # deterministic and cheap: re-run the stream and keep the failures of the same case
         fn(sub, [], [])
-        keys = [k for k in ('stream', 'idx', 'n', 'sel', 'kind', 'places', 'frame', 'slope', 'intercept', 'out', 'in', 'dtype', 'dtype_spelling',
+        keys = [k for k in ('stream', 'idx', 'ctype', 'palette_flag', 'n', 'sel', 'kind', 'places', 'frame', 'slope', 'intercept', 'out', 'in', 'dtype', 'dtype_spelling',
                             'range_spelling', 'frame_number', 'round', 'family', 'source', 'selector', 'entry', 'voi', 'rw', 'slice', 'cls',
                             'array_dtype', 'expl', 'image', 'variant', 'mod') if k in case]
         sub.failures = [f_ for f_ in sub.failures if all(_jsonish(f_['case'].get(k)) == _jsonish(case.get(k)) for k in keys)]
